@@ -437,4 +437,362 @@ theorem step_sim (fixed : Bool) (s : Mgr) (m : Msg) (hi : Inv s) :
         (by simp [absClient]), inv_setClient s1 _ c _ (g4 hi) g1 rfl ?_⟩
     exact fun j h hj => (g4 hi).2 _ _ g1 j h hj
 
+theorem buildPlaying_ident (now : Int) (i j : Nat) (info : PlayerInfo) (cmds : List Cmd)
+    (app : Option (Option Nat × Nat)) :
+    buildPlaying now ⟨i, info, cmds⟩ app = buildPlaying now ⟨j, info, cmds⟩ app := rfl
+
+/-- on a state whose pointers are live, the report is the spec's report of the abstraction -/
+theorem report_abs (now : Int) (s : Mgr) (hi : Inv s) :
+    report now s = some (specReport now (abs s)) := by
+  obtain ⟨h1, h2⟩ := hi
+  unfold report Mgr.playing Mgr.activeClient specReport serving
+  cases ha : s.active with
+  | none => simp [abs, ha, idleReport]
+  | some bh =>
+    obtain ⟨b, h⟩ := bh
+    obtain ⟨c, hc, hh⟩ := h1 b h ha
+    have hok := h2 b c hc
+    simp only [hc, hh, if_true, abs, ha, Option.map_some, absClient]
+    unfold Client.activePlayer
+    cases hca : c.active with
+    | none =>
+      simp only [Option.map_none, Option.getD_none]
+      cases hd : c.players defaultPlayer with
+      | none => simp only [Option.map_some]; rw [buildPlaying_ident now 0 defaultPlayer]
+      | some pl => simp
+    | some ih =>
+      obtain ⟨i, h'⟩ := ih
+      obtain ⟨pl, hp, hph⟩ := hok i h' hca
+      simp [hp, hph]
+
+theorem reach_sim (msgs : List Msg) :
+    abs (reach msgs) = specReach msgs ∧ Inv (reach msgs) := by
+  unfold reach specReach
+  suffices h : ∀ (s : Mgr) (st : SState), abs s = st → Inv s →
+      abs (msgs.foldl (fun s m => (step s m).1) s) = msgs.foldl specStep st ∧
+      Inv (msgs.foldl (fun s m => (step s m).1) s) from h _ _ abs_init inv_init
+  induction msgs with
+  | nil => intro s st h hi; exact ⟨h, hi⟩
+  | cons m ms ih =>
+    intro s st h hi
+    obtain ⟨a, b⟩ := step_sim true s m hi
+    simp only [List.foldl_cons]
+    exact ih _ _ (by rw [← h]; exact a) b
+
+/-! ## spec-level facts: which messages cannot change the report -/
+
+/-- the active client is a known client -/
+def SInv (st : SState) : Prop := ∀ a, st.activeClient = some a → (st.client a).known = true
+
+theorem sinv_abs (s : Mgr) (hi : Inv s) : SInv (abs s) := by
+  intro a ha
+  simp only [abs, Option.map_eq_some_iff] at ha
+  obtain ⟨⟨b, h⟩, hb, rfl⟩ := ha
+  obtain ⟨c, hc, _⟩ := hi.1 b h hb
+  simp [abs, hc, absClient]
+
+theorem touch_known (c : SClient) (n : Option Nat) (h : c.known = true) : c.touch n = c := by
+  simp [SClient.touch, h]
+
+/-- a message addressed to a client that is not the active one does not change the report -/
+theorem spec_other_client (now : Int) (st : SState) (m : Msg) (b : Nat)
+    (hm : m.client = some b) (hne : st.activeClient ≠ some b) :
+    specReport now (specStep st m) = specReport now st := by
+  have key : ∀ f : SClient → SClient,
+      specReport now (st.modClient b f) = specReport now st := by
+    intro f
+    unfold specReport serving SState.modClient
+    cases ha : st.activeClient with
+    | none => rfl
+    | some a =>
+      have : a ≠ b := by intro e; subst e; exact hne ha
+      simp [upd, this]
+  cases m with
+  | setNowPlayingClient b' n => simp [Msg.client] at hm
+  | removeClient b' n =>
+    simp only [Msg.client, Option.some.injEq] at hm
+    subst hm
+    unfold specStep specReport serving
+    simp only [hne, if_false]
+    cases ha : st.activeClient with
+    | none => rfl
+    | some a =>
+      have : a ≠ b' := by intro e; subst e; exact hne ha
+      simp [upd, this]
+  | setState p ps cmds q =>
+    simp only [Msg.client, Option.some.injEq] at hm; subst hm; exact key _
+  | contentItemUpdate p us =>
+    simp only [Msg.client, Option.some.injEq] at hm; subst hm; exact key _
+  | setNowPlayingPlayer p =>
+    simp only [Msg.client, Option.some.injEq] at hm; subst hm; exact key _
+  | updateClient b' n =>
+    simp only [Msg.client, Option.some.injEq] at hm; subst hm; exact key _
+  | removePlayer p =>
+    simp only [Msg.client, Option.some.injEq] at hm; subst hm; exact key _
+  | setDefaultSupportedCommands p cmds =>
+    simp only [Msg.client, Option.some.injEq] at hm; subst hm; exact key _
+
+/-- changing the active client in a way that keeps its chosen player, name, default commands
+    and the state of the player being reported does not change the report -/
+theorem spec_mod_active (now : Int) (st : SState) (b : Nat) (g : SClient → SClient)
+    (hact : st.activeClient = some b)
+    (h1 : (g (st.client b)).activePlayer = (st.client b).activePlayer)
+    (h2 : (g (st.client b)).name = (st.client b).name)
+    (h3 : (g (st.client b)).cmds = (st.client b).cmds)
+    (h4 : (g (st.client b)).info (((st.client b).activePlayer).getD defaultPlayer)
+        = (st.client b).info (((st.client b).activePlayer).getD defaultPlayer)) :
+    specReport now (st.modClient b g) = specReport now st := by
+  unfold specReport serving SState.modClient
+  simp only [hact, Option.map_some, upd_same, h1, h2, h3, h4]
+
+/-- a message about the state of a player that is not the one being reported does not
+    change the report -/
+theorem spec_other_player (now : Int) (st : SState) (m : Msg) (b p : Nat) (hs : SInv st)
+    (hm : m.about = some (b, p)) (hne : serving st ≠ some (b, p)) :
+    specReport now (specStep st m) = specReport now st := by
+  by_cases hact : st.activeClient = some b
+  · have hk := hs b hact
+    have hq : ((st.client b).activePlayer).getD defaultPlayer ≠ p := by
+      intro e; apply hne; simp [serving, hact, e]
+    have hch : (st.client b).activePlayer ≠ some p := by
+      intro e; apply hq; simp [e]
+    cases m with
+    | setState p' ps cmds q =>
+      simp only [Msg.about, Option.some.injEq, Prod.mk.injEq] at hm
+      obtain ⟨rfl, rfl⟩ := hm
+      exact spec_mod_active now st _ _ hact (by simp [touch_known _ _ hk, SClient.modInfo])
+        (by simp [touch_known _ _ hk, SClient.modInfo]) (by simp [touch_known _ _ hk, SClient.modInfo])
+        (by simp [touch_known _ _ hk, SClient.modInfo, upd, hq])
+    | contentItemUpdate p' us =>
+      simp only [Msg.about, Option.some.injEq, Prod.mk.injEq] at hm
+      obtain ⟨rfl, rfl⟩ := hm
+      exact spec_mod_active now st _ _ hact (by simp [touch_known _ _ hk, SClient.modInfo])
+        (by simp [touch_known _ _ hk, SClient.modInfo]) (by simp [touch_known _ _ hk, SClient.modInfo])
+        (by simp [touch_known _ _ hk, SClient.modInfo, upd, hq])
+    | removePlayer p' =>
+      simp only [Msg.about, Option.some.injEq, Prod.mk.injEq] at hm
+      obtain ⟨rfl, rfl⟩ := hm
+      refine spec_mod_active now st _ _ hact ?_ ?_ ?_ ?_ <;>
+        (simp only [touch_known _ _ hk]; split <;> simp [upd, hq, hch])
+    | setNowPlayingClient _ _ => simp [Msg.about] at hm
+    | setNowPlayingPlayer _ => simp [Msg.about] at hm
+    | updateClient _ _ => simp [Msg.about] at hm
+    | removeClient _ _ => simp [Msg.about] at hm
+    | setDefaultSupportedCommands _ _ => simp [Msg.about] at hm
+  · have hc : m.client = some b := by
+      cases m <;> simp_all [Msg.about, Msg.client]
+    exact spec_other_client now st m b hc hact
+
+/-- a remove-player message that names no player does not change the report -/
+theorem spec_remove_unnamed (now : Int) (st : SState) (p : Path) (hs : SInv st) (h0 : p.player = 0) :
+    specReport now (specStep st (.removePlayer p)) = specReport now st := by
+  by_cases hact : st.activeClient = some p.bundle
+  · have hk := hs _ hact
+    refine spec_mod_active now st _ _ hact ?_ ?_ ?_ ?_ <;> simp [touch_known _ _ hk, h0]
+  · exact spec_other_client now st _ p.bundle rfl hact
+
+/-! ## the wake-up test, read on live states -/
+
+theorem playing_ident (s : Mgr) (hi : Inv s) (b h : Nat) (c : Client)
+    (ha : s.active = some (b, h)) (hc : s.clients b = some c) :
+    s.playing.map (·.ident) = some c.activeIdent := by
+  obtain ⟨c0, hc0, hh0⟩ := hi.1 b h ha
+  rw [hc] at hc0; cases hc0
+  have hok := hi.2 b c hc
+  unfold Mgr.playing Mgr.activeClient Client.activePlayer Client.activeIdent
+  simp only [ha, hc, hh0, if_true]
+  cases hca : c.active with
+  | none =>
+    cases hd : c.players defaultPlayer <;> simp
+  | some ih =>
+    obtain ⟨i, h'⟩ := ih
+    obtain ⟨pl, hp, hph⟩ := hok i h' hca
+    simp [hp, hph]
+
+/-- if (b, i) is the player being reported and player i exists, a message about (b, i)
+    passes `_state_updated`'s `player == self.playing` test -/
+theorem notified_of_serving (s : Mgr) (hi : Inv s) (b i : Nat) (c : Client) (cl : Option (Nat × Nat))
+    (hs : serving (abs s) = some (b, i)) (hc : s.clients b = some c)
+    (hp : (c.players i).isSome = true) : stateUpdated s cl (some i) = true := by
+  simp only [serving, abs, Option.map_eq_some_iff] at hs
+  obtain ⟨b', ⟨⟨b'', h⟩, ha, rfl⟩, hb⟩ := hs
+  simp only [Prod.mk.injEq] at hb
+  obtain ⟨rfl, hq⟩ := hb
+  simp only [hc, absClient] at hq
+  have := playing_ident s hi _ h c ha hc
+  have hid : c.activeIdent = i := by
+    unfold Client.activeIdent
+    cases hca : c.active with
+    | none =>
+      simp only [hca, Option.map_none, Option.getD_none] at hq
+      subst hq; simp [hp]
+    | some ih =>
+      obtain ⟨j, h'⟩ := ih
+      simpa [hca] using hq
+  simp [stateUpdated, this, hid]
+
+/-- if the `client == self.client` test fails for the live object of client b, then b is
+    not the active client -/
+theorem not_active_of_test (s : Mgr) (hi : Inv s) (b : Nat) (c : Client)
+    (hc : s.clients b = some c) (ht : ¬ s.active = some (b, c.h)) :
+    (abs s).activeClient ≠ some b := by
+  intro e
+  simp only [abs, Option.map_eq_some_iff] at e
+  obtain ⟨⟨b', h⟩, ha, rfl⟩ := e
+  obtain ⟨c0, hc0, hh0⟩ := hi.1 _ h ha
+  rw [hc] at hc0; cases hc0
+  exact ht (by rw [ha, hh0])
+
+theorem spec_serving_modInfo (st : SState) (hs : SInv st) (b p : Nat) (n : Option Nat)
+    (f : PlayerInfo → PlayerInfo) :
+    serving (st.modClient b fun c => (c.touch n).modInfo p f) = serving st := by
+  unfold serving SState.modClient
+  cases ha : st.activeClient with
+  | none => rfl
+  | some a =>
+    by_cases e : a = b
+    · subst e
+      simp [upd, touch_known _ _ (hs a ha), SClient.modInfo]
+    · simp [upd, e]
+
+/-- **no wake-up ⇒ no change** (repaired tree): when `_state_updated`'s test fails for a
+    message, the spec's report is unchanged by it. -/
+theorem quiet_inert (now : Int) (s : Mgr) (m : Msg) (hi : Inv s) (hn : (step s m).2 = false) :
+    specReport now (specStep (abs s) m) = specReport now (abs s) := by
+  have hs := sinv_abs s hi
+  obtain ⟨hsim, hinv⟩ := step_sim true s m hi
+  unfold step at hn
+  cases m with
+  | setState p ps cmds q =>
+    apply spec_other_player now (abs s) _ p.bundle p.player hs rfl
+    intro hserv
+    have hserv2 : serving (abs (stepG true s (.setState p ps cmds q)).1) = some (p.bundle, p.player) := by
+      rw [hsim]; simp only [specStep]; rw [spec_serving_modInfo _ hs]; exact hserv
+    obtain ⟨g1, g2, _, _, _⟩ := getPlayer_spec s p
+    simp only [stepG] at hn hserv2 hinv
+    generalize getPlayer s p = r at g1 g2 hn hserv2 hinv
+    obtain ⟨s1, c, pl⟩ := r
+    simp only at g1 g2 hn hserv2 hinv
+    have := notified_of_serving _ hinv _ _ _ none hserv2 (by simp [Mgr.setClient, upd]; rfl) (by simp [upd])
+    rw [this] at hn; cases hn
+  | contentItemUpdate p us =>
+    apply spec_other_player now (abs s) _ p.bundle p.player hs rfl
+    intro hserv
+    have hserv2 : serving (abs (stepG true s (.contentItemUpdate p us)).1) = some (p.bundle, p.player) := by
+      rw [hsim]; simp only [specStep]; rw [spec_serving_modInfo _ hs]; exact hserv
+    obtain ⟨g1, g2, _, _, _⟩ := getPlayer_spec s p
+    simp only [stepG] at hn hserv2 hinv
+    generalize getPlayer s p = r at g1 g2 hn hserv2 hinv
+    obtain ⟨s1, c, pl⟩ := r
+    simp only at g1 g2 hn hserv2 hinv
+    have := notified_of_serving _ hinv _ _ _ none hserv2 (by simp [Mgr.setClient, upd]; rfl) (by simp [upd])
+    rw [this] at hn; cases hn
+  | setNowPlayingClient b n =>
+    simp [stepG, stateUpdated] at hn
+  | setDefaultSupportedCommands p cmds =>
+    simp [stepG, stateUpdated] at hn
+  | setNowPlayingPlayer p =>
+    obtain ⟨g1, g2, g3, _, _⟩ := getPlayer_spec s p
+    simp only [stepG] at hn hinv
+    generalize getPlayer s p = r at g1 g2 g3 hn hinv
+    obtain ⟨s1, c, pl⟩ := r
+    simp only at g1 g2 g3 hn hinv
+    have ht : ¬ s1.active = some (p.bundle, c.h) := by
+      intro e; simp [stateUpdated, Mgr.setClient, e] at hn
+    have := not_active_of_test _ hinv p.bundle { c with active := some (p.player, pl.h) }
+      (by simp [Mgr.setClient, upd]) (by simpa [Mgr.setClient] using ht)
+    apply spec_other_client now (abs s) _ p.bundle rfl
+    simpa [abs, Mgr.setClient, g3] using this
+  | updateClient b n =>
+    obtain ⟨g1, g2, _, _⟩ := getClient_spec s b n
+    simp only [stepG] at hn hinv
+    generalize getClient s b n = r at g1 g2 hn hinv
+    obtain ⟨s1, c⟩ := r
+    simp only at g1 g2 hn hinv
+    have ht : ¬ s1.active = some (b, c.h) := by
+      intro e; simp [stateUpdated, Mgr.setClient, e] at hn
+    have := not_active_of_test _ hinv b { c with name := pyOr n c.name }
+      (by simp [Mgr.setClient, upd]) (by simpa [Mgr.setClient] using ht)
+    apply spec_other_client now (abs s) _ b rfl
+    simpa [abs, Mgr.setClient, g2] using this
+  | removeClient b n =>
+    apply spec_other_client now (abs s) _ b rfl
+    simp only [stepG] at hn
+    cases hc : s.clients b with
+    | none =>
+      intro e
+      have := hs b e
+      simp [abs, hc, absClient, SClient.unknown] at this
+    | some c =>
+      simp only [hc] at hn
+      by_cases ha : s.active = some (b, c.h)
+      · simp [ha, stateUpdated] at hn
+      · exact not_active_of_test s hi b c hc ha
+  | removePlayer p =>
+    by_cases h0 : p.player = 0
+    · exact spec_remove_unnamed now (abs s) p hs h0
+    · obtain ⟨g1, g2, g3, g4, _⟩ := getPlayer_spec s p
+      simp only [stepG, removePlayer] at hn hinv
+      generalize getPlayer s p = r at g1 g2 g3 g4 hn hinv
+      obtain ⟨s1, c, pl⟩ := r
+      simp only [h0, ne_eq, not_false_eq_true, if_true] at g1 g2 g3 g4 hn hinv
+      by_cases hw : (c.activeIdent == p.player) = true
+      · simp only [hw, if_true] at hn hinv
+        have ht : ¬ s1.active = some (p.bundle, c.h) := by
+          intro e; simp [stateUpdated, Mgr.setClient, e] at hn
+        have := not_active_of_test _ hinv p.bundle
+          { c with players := upd c.players p.player none, active := none }
+          (by simp [Mgr.setClient, upd]) (by simpa [Mgr.setClient] using ht)
+        apply spec_other_client now (abs s) _ p.bundle rfl
+        simpa [abs, Mgr.setClient, g3] using this
+      · apply spec_other_player now (abs s) _ p.bundle p.player hs rfl
+        intro hserv
+        apply hw
+        -- the client object after get_player shows the same chosen player as before
+        have hact : (abs s).activeClient = some p.bundle := by
+          simp only [serving, Option.map_eq_some_iff] at hserv
+          obtain ⟨a, ha, hb⟩ := hserv
+          simp only [Prod.mk.injEq] at hb
+          rw [ha, hb.1]
+        have hcl : absClient (some c) = (abs s).client p.bundle := by
+          have := congrArg (fun z => z.client p.bundle) g4
+          simp only [abs, SState.modClient, upd_same, g1] at this
+          rw [this]
+          exact touch_known _ _ (hs _ hact)
+        have hq : (c.active.map (·.1)).getD defaultPlayer = p.player := by
+          simp only [serving, hact, Option.map_some, Option.some.injEq, Prod.mk.injEq, true_and] at hserv
+          rw [← hcl] at hserv
+          simpa [absClient] using hserv
+        unfold Client.activeIdent
+        cases hca : c.active with
+        | none =>
+          simp only [hca, Option.map_none, Option.getD_none] at hq
+          rw [← hq] at g2
+          simp [g2, ← hq]
+        | some ih =>
+          obtain ⟨j, h'⟩ := ih
+          simpa [hca] using hq
+
+theorem serving_abs (s : Mgr) (hi : Inv s) : serving (abs s) = s.serving := by
+  unfold serving Mgr.serving
+  cases ha : s.active with
+  | none => simp [abs, ha]
+  | some bh =>
+    obtain ⟨b, h⟩ := bh
+    obtain ⟨c, hc, _⟩ := hi.1 b h ha
+    simp only [abs, ha, Option.map_some, hc, absClient]
+    cases hca : c.active with
+    | none => simp
+    | some ih => obtain ⟨i, h'⟩ := ih; simp
+
+theorem reach_snoc (msgs : List Msg) (m : Msg) : reach (msgs ++ [m]) = (step (reach msgs) m).1 := by
+  simp [reach, List.foldl_append]
+
+/-- the report after one more message, through the spec -/
+theorem report_step (now : Int) (s : Mgr) (m : Msg) (hi : Inv s) :
+    report now (step s m).1 = some (specReport now (specStep (abs s) m)) := by
+  obtain ⟨a, b⟩ := step_sim true s m hi
+  unfold step
+  rw [report_abs now _ b, a]
+
 end PyatvModel.C11
